@@ -1,6 +1,7 @@
 import MLPE.DriverStore
 import MLPE.DriverEng
 import MLPE.DriverBuilder
+import MLPE.DriverViewer
 
 open MLPE
 
@@ -23,6 +24,7 @@ def main (args : List String) : IO UInt32 := do
   let stdout ← IO.getStdout
   match args with
   | ["store"] => loopLines stdin stdout Store.dStep {} {} ; return 0
+  | ["viewer"] => loopLines stdin stdout Viewer.viewerLine () () ; return 0
   | ["build"] => loopLines stdin stdout Builder.buildLine () () ; return 0
   | ["retry"] => loopLines stdin stdout Eng.retryLine () () ; return 0
   | ["sem"] => loopLines stdin stdout Eng.semLine () () ; return 0
